@@ -229,7 +229,7 @@ static void fam_bound(int thorough) {	// out_size = *_bound(n) never fails for l
 }
 
 int main(int argc, char **argv) {
-	h_init(); h_set_init(&cfgset, 64); if (argc < 5) return 2; int thorough = !strcmp(argv[2], "thorough"); sh = atoi(argv[3]); nsh = atoi(argv[4]);
+	h_init(); h_watchdog(5, 12);	/* 60 s of CPU inside one element = the call under test does not return */ h_set_init(&cfgset, 64); if (argc < 5) return 2; int thorough = !strcmp(argv[2], "thorough"); sh = atoi(argv[3]); nsh = atoi(argv[4]);
 	inb = malloc(MAXIN + 64); comp = malloc(MAXIN + MAXIN / 2 + 70000); dec = malloc(MAXIN + 64); refo = malloc(MAXIN + 16384);
 	const char *f = argv[1];
 	if (!strcmp(f, "k1")) fam_k1(thorough); else if (!strcmp(f, "k2")) fam_k2(thorough); else if (!strcmp(f, "k3")) fam_k3(thorough); else if (!strcmp(f, "k4")) fam_k4(thorough);
